@@ -27,10 +27,12 @@ CONSTANTS Alg,      \* "ClosedForm" | "AltMin" | "MinLeakage" | "MaxSINR" | "MMS
           Acts,     \* enabled action names
           Dev       \* [PSetterKeepsDerived, SetPrecodersKeepsFullW, InvalidPCommitted, SetFiltersKeepsFullW : BOOLEAN]
 
-VARIABLES hasF, hasW, wGiven, pKind, solved, cFullF, cWconv, cFullWH, cFullW, ret,
+VARIABLES hasF, hasW, wGiven, pKind, solved, cFullF, cWconv, cFullWH, cFullW, ret, iterOK,
           fNs, wNs    \* streams per user of the current precoders / receive filters (they can be installed with another
                       \* stream count than the last solve used; Ns must follow the precoders)
-vars == <<hasF, hasW, wGiven, pKind, solved, cFullF, cWconv, cFullWH, cFullW, ret, fNs, wNs>>
+\* iterOK: precoders and filters (and the solver's internal subspaces) come from one solve()/iteration of this object, at
+\*         most the power was changed since: the state from which "one more iteration" is defined
+vars == <<hasF, hasW, wGiven, pKind, solved, cFullF, cWconv, cFullWH, cFullW, ret, fNs, wNs, iterOK>>
 NsSet == {1, 2}
 
 \* snapshot: [f, p, w, h : "cur" | "old"]; a cache is NoneC or a snapshot
@@ -40,7 +42,7 @@ AgeIn(c, fld) == IF c = NoneC THEN c ELSE [c EXCEPT ![fld] = "old"]
 
 Init == /\ hasF = FALSE /\ hasW = FALSE /\ wGiven = "none" /\ pKind = "default" /\ solved = FALSE
         /\ cFullF = NoneC /\ cWconv = NoneC /\ cFullWH = NoneC /\ cFullW = NoneC
-        /\ ret = [op |-> "none", a |-> <<>>] /\ fNs = 1 /\ wNs = 1
+        /\ ret = [op |-> "none", a |-> <<>>] /\ fNs = 1 /\ wNs = 1 /\ iterOK = FALSE
 
 Step(op, a) == ret' = [op |-> op, a |-> a]
 
@@ -59,17 +61,35 @@ Solve(pk) ==
   /\ wGiven' = IF Alg = "AltMin" THEN "W_H" ELSE "W"
   /\ cFullF' = NoneC
   /\ cWconv' = NoneC /\ cFullWH' = NoneC /\ cFullW' = NoneC
-  /\ fNs' = 1 /\ wNs' = 1
+  /\ fNs' = 1 /\ wNs' = 1 /\ iterOK' = TRUE
   /\ Step("Solve", <<pk>>)
+
+\* one more iteration of an iterative solver, continued from its own precoders (initialize_with = 'fix',
+\* max_iterations = 1) with the power in force.  For the alternating-minimization and minimum-leakage solvers with equal
+\* powers the total leaked interference power after the iteration is at most the one before (LeakNonIncreasing).
+IterStep ==
+  /\ "IterStep" \in Acts /\ iterOK /\ Alg \in {"AltMin", "MinLeakage"} /\ pKind \in {"default", "scalar"}
+  /\ hasF' = TRUE /\ hasW' = TRUE /\ solved' = TRUE /\ iterOK' = TRUE
+  /\ wGiven' = IF Alg = "AltMin" THEN "W_H" ELSE "W"
+  /\ cFullF' = NoneC /\ cWconv' = NoneC /\ cFullWH' = NoneC /\ cFullW' = NoneC
+  /\ UNCHANGED <<pKind, fNs, wNs>>
+  /\ Step("IterStep", <<>>)
+
+\* clear(): the object forgets its solution and its power
+Clear ==
+  /\ "Clear" \in Acts
+  /\ hasF' = FALSE /\ hasW' = FALSE /\ wGiven' = "none" /\ pKind' = "default" /\ solved' = FALSE /\ iterOK' = FALSE
+  /\ cFullF' = NoneC /\ cWconv' = NoneC /\ cFullWH' = NoneC /\ cFullW' = NoneC /\ fNs' = 1 /\ wNs' = 1
+  /\ Step("Clear", <<>>)
 
 RandomizeF(pk) ==
   /\ "RandomizeF" \in Acts
   /\ hasF' = TRUE /\ pKind' = pk /\ solved' = FALSE
   /\ ClearF(Dev.SetPrecodersKeepsFullW) /\ UNCHANGED <<hasW, wGiven, cWconv, wNs>>
-  /\ fNs' = 1
+  /\ fNs' = 1 /\ iterOK' = FALSE
   /\ Step("RandomizeF", <<pk>>)
 
-\* set_precoders(F=.. | full_F=.. [, P=..]);  how \in {"F", "fullF"};  pk = "keep" leaves P as it is
+\* set_precoders(F=.. | full_F=.. | both [, P=..]);  how \in {"F", "fullF", "both"};  pk = "keep" leaves P as it is
 SetPrecoders(how, pk, ns) ==
   /\ "SetPrecoders" \in Acts
   /\ fNs' = ns /\ UNCHANGED wNs
@@ -77,7 +97,8 @@ SetPrecoders(how, pk, ns) ==
   /\ pKind' = IF pk = "keep" THEN pKind ELSE pk
   /\ cFullWH' = IF Dev.SetPrecodersKeepsFullW THEN AgeIn(cFullWH, "f") ELSE NoneC
   /\ cFullW'  = IF Dev.SetPrecodersKeepsFullW THEN AgeIn(cFullW, "f") ELSE NoneC
-  /\ cFullF' = IF how = "fullF" THEN Fresh ELSE NoneC          \* the given full_F is stored
+  /\ cFullF' = IF how \in {"fullF", "both"} THEN Fresh ELSE NoneC          \* the given full_F is stored
+  /\ iterOK' = FALSE
   /\ UNCHANGED <<hasW, wGiven, cWconv>>
   /\ Step("SetPrecoders", <<how, pk, ns>>)
 
@@ -89,6 +110,7 @@ SetFilters(which, ns) ==
   /\ cWconv' = NoneC
   /\ cFullWH' = NoneC
   /\ cFullW' = IF Dev.SetFiltersKeepsFullW THEN AgeIn(cFullW, "w") ELSE NoneC
+  /\ iterOK' = FALSE
   /\ UNCHANGED <<hasF, pKind, cFullF>>
   /\ Step("SetFilters", <<which, ns>>)
 
@@ -99,7 +121,7 @@ SetP(pk) ==
   /\ IF Dev.PSetterKeepsDerived
        THEN /\ cFullF' = AgeIn(cFullF, "p") /\ cFullWH' = AgeIn(cFullWH, "p") /\ cFullW' = AgeIn(cFullW, "p")
        ELSE /\ cFullF' = NoneC /\ cFullWH' = NoneC /\ cFullW' = NoneC
-  /\ UNCHANGED <<hasF, hasW, wGiven, cWconv, fNs, wNs>>
+  /\ UNCHANGED <<hasF, hasW, wGiven, cWconv, fNs, wNs, iterOK>>
   /\ Step("SetP", <<pk>>)
 
 \* P = invalid value (negative entry, zero, wrong length): raises, the object is unchanged
@@ -108,14 +130,14 @@ SetPInvalid(kind) ==
   /\ IF Dev.InvalidPCommitted /\ kind = "negvec"
        THEN /\ pKind' = "invalid" /\ cFullF' = AgeIn(cFullF, "p") /\ cFullWH' = AgeIn(cFullWH, "p") /\ cFullW' = AgeIn(cFullW, "p")
        ELSE UNCHANGED <<pKind, cFullF, cFullWH, cFullW>>
-  /\ UNCHANGED <<hasF, hasW, wGiven, solved, cWconv, fNs, wNs>>
+  /\ UNCHANGED <<hasF, hasW, wGiven, solved, cWconv, fNs, wNs, iterOK>>
   /\ Step("SetPInvalid", <<kind>>)
 
 \* rejected setter calls: set_precoders() without F and full_F, set_receive_filters() with both or none of W, W_H
-\* (RuntimeError).  Nothing may change.
+\* (RuntimeError), set_precoders(F, P = a vector with a negative entry) (ValueError).  Nothing may change.
 RejectedCall(kind) ==
   /\ "RejectedCall" \in Acts
-  /\ UNCHANGED <<hasF, hasW, wGiven, pKind, solved, cFullF, cWconv, cFullWH, cFullW, fNs, wNs>>
+  /\ UNCHANGED <<hasF, hasW, wGiven, pKind, solved, cFullF, cWconv, cFullWH, cFullW, fNs, wNs, iterOK>>
   /\ Step("RejectedCall", <<kind>>)
 
 \* the channel object is re-randomized: the stored solution belongs to the old channel until the next Solve
@@ -123,6 +145,7 @@ NewChannel ==
   /\ "NewChannel" \in Acts /\ solved
   /\ solved' = FALSE /\ hasF' = FALSE /\ hasW' = FALSE /\ wGiven' = "none"
   /\ cFullF' = NoneC /\ cWconv' = NoneC /\ cFullWH' = NoneC /\ cFullW' = NoneC
+  /\ iterOK' = FALSE
   /\ UNCHANGED <<pKind, fNs, wNs>>
   /\ Step("NewChannel", <<>>)
 
@@ -132,7 +155,7 @@ ReadFullF ==
   /\ "ReadFullF" \in Acts /\ hasF
   /\ cFullF' = FullFVal
   /\ ret' = [op |-> "ReadFullF", a |-> <<>>, src |-> FullFVal]
-  /\ UNCHANGED <<hasF, hasW, wGiven, pKind, solved, cWconv, cFullWH, cFullW, fNs, wNs>>
+  /\ UNCHANGED <<hasF, hasW, wGiven, pKind, solved, cWconv, cFullWH, cFullW, fNs, wNs, iterOK>>
 
 \* W (when W_H was given) or W_H (when W was given): the converted filter
 ConvVal == IF cWconv = NoneC THEN Fresh ELSE cWconv
@@ -140,7 +163,7 @@ ReadWconv ==
   /\ "ReadWconv" \in Acts /\ hasW
   /\ cWconv' = ConvVal
   /\ ret' = [op |-> "ReadWconv", a |-> <<>>, src |-> ConvVal]
-  /\ UNCHANGED <<hasF, hasW, wGiven, pKind, solved, cFullF, cFullWH, cFullW, fNs, wNs>>
+  /\ UNCHANGED <<hasF, hasW, wGiven, pKind, solved, cFullF, cFullWH, cFullW, fNs, wNs, iterOK>>
 
 \* full_W_H: computed from W_H (converted if need be), the channel and full_F (itself cached)
 Merge(a, b) == [f |-> IF a.f = "old" \/ b.f = "old" THEN "old" ELSE "cur",
@@ -153,7 +176,7 @@ ReadFullWH ==
   /\ cFullWH' = FullWHVal
   /\ IF cFullWH = NoneC THEN cWconv' = ConvVal /\ cFullF' = FullFVal ELSE UNCHANGED <<cWconv, cFullF>>
   /\ ret' = [op |-> "ReadFullWH", a |-> <<>>, src |-> FullWHVal]
-  /\ UNCHANGED <<hasF, hasW, wGiven, pKind, solved, cFullW, fNs, wNs>>
+  /\ UNCHANGED <<hasF, hasW, wGiven, pKind, solved, cFullW, fNs, wNs, iterOK>>
 
 FullWVal == IF cFullW = NoneC THEN FullWHVal ELSE cFullW
 ReadFullW ==
@@ -164,15 +187,16 @@ ReadFullW ==
             /\ IF cFullWH = NoneC THEN cWconv' = ConvVal /\ cFullF' = FullFVal ELSE UNCHANGED <<cWconv, cFullF>>
        ELSE UNCHANGED <<cFullWH, cWconv, cFullF>>
   /\ ret' = [op |-> "ReadFullW", a |-> <<>>, src |-> FullWVal]
-  /\ UNCHANGED <<hasF, hasW, wGiven, pKind, solved, fNs, wNs>>
+  /\ UNCHANGED <<hasF, hasW, wGiven, pKind, solved, fNs, wNs, iterOK>>
 
 PKinds == {"default", "scalar", "vector"}
 Next ==
   \/ \E pk \in PKinds : Solve(pk) \/ RandomizeF(pk) \/ SetP(pk)
-  \/ \E how \in {"F", "fullF"}, pk \in {"keep", "vector"}, ns \in NsSet : SetPrecoders(how, pk, ns)
+  \/ \E how \in {"F", "fullF", "both"}, pk \in {"keep", "vector", "scalar"}, ns \in NsSet : SetPrecoders(how, pk, ns)
   \/ \E w \in {"W", "W_H"}, ns \in NsSet : SetFilters(w, ns)
   \/ \E k \in {"negvec", "zero", "short"} : SetPInvalid(k)
-  \/ \E k \in {"precodersNone", "filtersBoth", "filtersNone"} : RejectedCall(k)
+  \/ \E k \in {"precodersNone", "filtersBoth", "filtersNone", "precodersBadP"} : RejectedCall(k)
+  \/ IterStep \/ Clear
   \/ NewChannel \/ ReadFullF \/ ReadWconv \/ ReadFullWH \/ ReadFullW
 Spec == Init /\ [][Next]_vars
 
@@ -190,15 +214,18 @@ Required == (IF hasF THEN {"UnitNormF", "PowerLeP", "NsMatchesShapes"} ELSE {})
        \cup (IF hasF /\ hasW /\ fNs = wNs THEN {"OwnChannelIdentity", "FullWIsHermitianOfFullWH"} ELSE {})
        \cup (IF solved /\ Alg = "ClosedForm" THEN {"ClosedFormNulls"} ELSE {})
        \cup (IF solved THEN {"SolvedShapes"} ELSE {})
+       \cup (IF ~hasF /\ ~hasW /\ pKind = "default" /\ ~solved THEN {"NothingReported"} ELSE {})
 
 StateRec == [hasF |-> hasF, hasW |-> hasW, wGiven |-> wGiven, pKind |-> pKind, solved |-> solved,
-             cFullF |-> cFullF, cWconv |-> cWconv, cFullWH |-> cFullWH, cFullW |-> cFullW, fNs |-> fNs, wNs |-> wNs]
+             cFullF |-> cFullF, cWconv |-> cWconv, cFullWH |-> cFullWH, cFullW |-> cFullW, fNs |-> fNs, wNs |-> wNs, iterOK |-> iterOK]
 StateRecP == [hasF |-> hasF', hasW |-> hasW', wGiven |-> wGiven', pKind |-> pKind', solved |-> solved',
-             cFullF |-> cFullF', cWconv |-> cWconv', cFullWH |-> cFullWH', cFullW |-> cFullW', fNs |-> fNs', wNs |-> wNs']
+             cFullF |-> cFullF', cWconv |-> cWconv', cFullWH |-> cFullWH', cFullW |-> cFullW', fNs |-> fNs', wNs |-> wNs', iterOK |-> iterOK']
 RequiredP == (IF hasF' THEN {"UnitNormF", "PowerLeP", "NsMatchesShapes"} ELSE {})
        \cup (IF hasF' /\ Alg # "MMSE" THEN {"PowerEqP"} ELSE {})
        \cup (IF hasF' /\ hasW' /\ fNs' = wNs' THEN {"OwnChannelIdentity", "FullWIsHermitianOfFullWH"} ELSE {})
        \cup (IF solved' /\ Alg = "ClosedForm" THEN {"ClosedFormNulls"} ELSE {})
        \cup (IF solved' THEN {"SolvedShapes"} ELSE {})
+       \cup (IF ret'.op = "Clear" THEN {"NothingReported"} ELSE {})
+       \cup (IF ret'.op = "IterStep" THEN {"LeakNonIncreasing"} ELSE {})
 Emit == EmitEdge([pre |-> StateRec, post |-> StateRecP, ret |-> ret', req |-> RequiredP])
 =============================================================================
